@@ -1,6 +1,7 @@
 from vlib import Check
 
 TRUSTED = [
+    "tie (T), added: the statement lists of the functions this property's model was transcribed from are regenerated from /repo on every run (Gen/Stmts.lean) and pinned against the committed transcription source by the kernel-decided theorem source_as_modelled; the step from statements to model is by reading and is what the differential runs check",
     "Lean 4.33.0 kernel; axioms of every theorem audited",
     "hand-written model Model/Translate.lean of computeMembership / partyIDsByUniversalIDs / universalIDsByPartyIDs and their use in runDKG, prepareSigning, initializeDKG, initializeThresholdSigning; tied by the harness component translate "
     "(real Scheme.KeyGen and Scheme.Sign with a scripted synchroniser that returns the agreed list and a scripted backend that records Init/OnMsg and emits addressed sends)",
@@ -13,7 +14,7 @@ ASSUME = [
 
 def main():
     c = Check("C06")
-    c.prove(gen=[])
+    c.prove(gen=["stmts"])
     c.correspond("translate")
     return c.finish(
         rule="membership maps of six kinds (identity, shift by 10, permutation, 1-2 replicas per party, 1-3 replicas per party, random 16-bit party ids on nodes near 65000) x agreed lists with one replica per party and, one time in six, "
